@@ -73,7 +73,7 @@ theorem moveTo_perm (l : List E) (id : Int) (n : Nat) (hn : (l.map (·.1)).Nodup
         (t :: l.filter (fun x => x.1 != id)) := by
       rw [List.append_assoc]
       refine List.perm_middle.trans (List.Perm.cons _ ?_)
-      rw [List.take_append_drop]
+      simp
     refine h1.trans ?_
     -- l is t together with the entries of other ids
     have h2 : l.Perm (l.filter (fun x => x.1 == id) ++ l.filter (fun x => !(x.1 == id))) :=
@@ -107,7 +107,7 @@ theorem trunc_le (x : Rat) (h : 0 ≤ x) : (Rat.truncZ x : Rat) ≤ x ∧ 0 ≤ 
   unfold Rat.truncZ
   simp only [h, if_true]
   refine ⟨?_, ?_, ?_⟩
-  · exact Rat.floor_le x |> fun h' => by simpa using Int.floor_le x
+  · exact Int.floor_le x
   · exact Int.floor_nonneg.mpr h
   · exact Int.lt_floor_add_one x
 
